@@ -17,6 +17,8 @@ CONSTANTS
   PadOdd = TRUE
   SeekFirst = TRUE
   IterYieldsAll = TRUE
+  FdKinds = {"same"}
+  TrustFd = FALSE
 SPECIFICATION Spec
 INVARIANT TypeOK
 INVARIANT IndexExact
